@@ -298,3 +298,24 @@ func (fr *Frame) goHasNoEffect(g *ssa.Go) bool {
 	}
 	return ct.HasAssigns && len(ct.Assigns) == 0
 }
+
+// errClauses: contract clauses that could not be evaluated on the current tree (a name they use is gone, ...)
+var errClauses = map[*Clause]bool{}
+
+// contractStale: some clause of the function's contract could not be evaluated on this tree. Proofs of that
+// function may then fail only because an invariant or assumption is missing, so a failed obligation of it
+// is reported as undecided (contract out of date), not as a violation.
+func (W *World) contractStale(fn string) bool {
+	ct := W.contracts[fn]
+	if ct == nil {
+		return false
+	}
+	for _, list := range [][]*Clause{ct.Requires, ct.Ensures, ct.Invs, ct.Asserts} {
+		for _, cl := range list {
+			if errClauses[cl] {
+				return true
+			}
+		}
+	}
+	return false
+}
